@@ -367,6 +367,15 @@ def coerceToIo (v : Value) (t : Ty) (s : Size) : Except Err Value :=
       | _ => if isNumeric v then .error .unmodelled else .error .typeMismatch
     | .other => .error .typeMismatch
 
+/-- `v` is a value of the elementary type `t` (the variant the interpreter stores for a variable
+declared with that type). -/
+def Value.hasTy : Value → Ty → Bool
+  | .bool _, .bool | .sint _, .sint | .usint _, .usint | .byte _, .byte | .char _, .char
+  | .int _, .int | .uint _, .uint | .word _, .word | .wchar _, .wchar
+  | .dint _, .dint | .udint _, .udint | .dword _, .dword | .real _, .real
+  | .lint _, .lint | .ulint _, .ulint | .lword _, .lword | .lreal _, .lreal => true
+  | _, _ => false
+
 /-! ## Storage and bindings: `IoInterface::read_inputs` / `write_outputs` -/
 
 /-- Variable storage, abstracted to a partial map from variable ids to values. -/
@@ -444,6 +453,27 @@ def collect (s : Store) : List Binding → Io → Io × Option Err
       match write io b.addr v with
       | .error e => (io, some e)
       | .ok io' => collect s bs io'
+
+/-- A binding as the compiler should produce them: typed with one of the 17 elementary types the
+coercions know, the address size is the size of that type, the address is flat with a bit index
+0..7.  (Decidable guard of the `…_partial` theorems; the recorded findings are bindings outside it.) -/
+def Binding.wellTyped (b : Binding) : Bool :=
+  match b.ty with
+  | some t => expectedSize t == some b.addr.size && b.addr.valid
+  | none => false
+
+/-- The variable of an out-binding holds an in-range value of the binding's type. -/
+def Binding.holdsTyped (b : Binding) (s : Store) : Prop :=
+  ∃ v t, b.ty = some t ∧ s b.target.var = some v ∧ v.hasTy t = true ∧ v.WF
+
+/-- A write to `a'` cannot change what is read at `a`: `a'` is hierarchical (separate map) or flat
+and disjoint from `a`. -/
+def Addr.noClash (a' a : Addr) : Bool :=
+  decide (a'.path.length > 1) || (a'.flat && a'.disjoint a)
+
+/-- A binding does not interfere with address `a` during `write_outputs`: it is not visited, or its
+address does not clash. -/
+def Binding.noClash (b : Binding) (a : Addr) : Bool := !b.isOut || b.addr.noClash a
 
 /-! ## The scan cycle -/
 
@@ -531,6 +561,20 @@ def execTasks : List Task → Store → Store × List Ev × Option Err
       let r := execTasks ts s'
       (r.1, .taskStart t.id :: evs ++ .taskEnd t.id :: r.2.1, r.2.2)
 
+/-- All program bodies of the ready tasks, in execution order. -/
+def allProgs (tasks : List Task) : List Prog := tasks.flatMap (·.progs)
+
+/-- Specification vocabulary: the storage after running the bodies one after the other. -/
+def runAll : List Prog → Store → Store
+  | [], s => s
+  | p :: ps, s => runAll ps (p.run s).1
+
+/-- Specification vocabulary: the `prog` events of running the bodies one after the other, each
+carrying the storage its body starts on. -/
+def entries : List Prog → Store → List Ev
+  | [], _ => []
+  | p :: ps, s => .prog p.id s :: entries ps (p.run s).1
+
 /-- `for entry in drivers { entry.driver.write_outputs(interface.outputs())? }`. -/
 def writePhase : List DrvIn → Nat → List Nat → List Ev × Option Err
   | [], _, _ => ([], none)
@@ -603,6 +647,21 @@ structure CycleOut where
 def failWith (io : Io) (s : Store) (log : List Ev) (pe : Phase × Err) : CycleOut :=
   { rt := { io := io, store := s, faulted := true }, log := log ++ [.fault], err := some pe }
 
+/-- Result of the program phase. -/
+structure ProgOut where
+  store : Store
+  evs : List Ev
+  err : Option (Phase × Err)
+
+/-- The middle of `execute_cycle`: the ready tasks in order, then `execute_background_programs`. -/
+def programPhase (tasks : List Task) (bg : List Prog) (s : Store) : ProgOut :=
+  match execTasks tasks s with
+  | (s2, ev2, some e) => { store := s2, evs := ev2, err := some (.tasks, e) }
+  | (s2, ev2, none) =>
+    match execProgs bg s2 with
+    | (s3, ev3, some e) => { store := s3, evs := ev2 ++ ev3, err := some (.background, e) }
+    | (s3, ev3, none) => { store := s3, evs := ev2 ++ ev3, err := none }
+
 /-- `Runtime::execute_cycle` (ready tasks already ordered by the scheduler, see C06). -/
 def cycle (bs : List Binding) (rt : Rt) (drv : List DrvIn) (dbg : Dbg) (tasks : List Task)
     (bg : List Prog) : CycleOut :=
@@ -611,18 +670,16 @@ def cycle (bs : List Binding) (rt : Rt) (drv : List DrvIn) (dbg : Dbg) (tasks : 
   match i.err with
   | some pe => failWith i.io i.store (.cycleStart :: i.evs) pe
   | none =>
-  match execTasks tasks i.store with
-  | (s2, ev2, some e) => failWith i.io s2 (.cycleStart :: i.evs ++ ev2) (.tasks, e)
-  | (s2, ev2, none) =>
-  match execProgs bg s2 with
-  | (s3, ev3, some e) => failWith i.io s3 (.cycleStart :: i.evs ++ ev2 ++ ev3) (.background, e)
-  | (s3, ev3, none) =>
-  let o := writeCycleOutputs bs i.io s3 drv dbg
-  match o.err with
-  | some pe => failWith o.io s3 (.cycleStart :: i.evs ++ ev2 ++ ev3 ++ o.evs) pe
+  let p := programPhase tasks bg i.store
+  match p.err with
+  | some pe => failWith i.io p.store (.cycleStart :: i.evs ++ p.evs) pe
   | none =>
-    { rt := { io := o.io, store := s3, faulted := false },
-      log := .cycleStart :: i.evs ++ ev2 ++ ev3 ++ o.evs ++ [.cycleEnd], err := none }
+  let o := writeCycleOutputs bs i.io p.store drv dbg
+  match o.err with
+  | some pe => failWith o.io p.store (.cycleStart :: i.evs ++ p.evs ++ o.evs) pe
+  | none =>
+    { rt := { io := o.io, store := p.store, faulted := false },
+      log := .cycleStart :: i.evs ++ p.evs ++ o.evs ++ [.cycleEnd], err := none }
 
 /-- Did the cycle reach `debug.drain_io_writes()` (which empties the queue whatever happens next)?
 Otherwise the queued writes stay queued for the next cycle. -/
@@ -706,6 +763,9 @@ def PAccess.width : PAccess → Nat
 
 def PAccess.index : PAccess → Nat
   | .bit i | .byte i | .word i | .dword i => i
+
+/-- Bit offset of the accessed part inside the target (`index * width`). -/
+def PAccess.shift (acc : PAccess) : Nat := acc.index * acc.width
 
 /-- `((value >> (index * w)) & mask)` as the value of the part's type. -/
 def mkPart (acc : PAccess) (x : Nat) : Value :=
